@@ -5,6 +5,7 @@
 From Coq Require Import List NArith ZArith Bool Lia.
 From Cao Require Import ListUtil CheckUtil Bits CardAst Bytecode Compiler CompilerGen StdlibGen Wellformed
      CompilerProofs CompilerWf.
+From Cao Require Export BitsProofs.
 Import ListNotations.
 Local Open Scope N_scope.
 
@@ -13,10 +14,12 @@ Lemma land_mask32_lt x : N.land x mask32 < two32.
 Proof.
   change mask32 with (N.ones 32). rewrite N.land_ones. apply N.mod_lt. discriminate.
 Qed.
+Lemma non_zero_lt x : x < two32 -> non_zero x < two32.
+Proof. unfold non_zero, nonzero_hash. destruct (x =? 0); [reflexivity | auto]. Qed.
 Lemma handle_of_bytes_lt bs : handle_of_bytes bs < two32.
-Proof. unfold handle_of_bytes, fnv_bytes. apply land_mask32_lt. Qed.
+Proof. unfold handle_of_bytes, fnv_bytes. apply non_zero_lt, land_mask32_lt. Qed.
 Lemma hash_u64_lt k m : hash_u64 k m < two32.
-Proof. unfold hash_u64. apply N.mod_lt. discriminate. Qed.
+Proof. unfold hash_u64. apply non_zero_lt, N.mod_lt. discriminate. Qed.
 Lemma handle_from_u64_lt k : handle_from_u64 k < two32.
 Proof. unfold handle_from_u64. apply hash_u64_lt. Qed.
 Lemma handle_from_u32_lt k : handle_from_u32 k < two32.
@@ -33,7 +36,12 @@ Proof.
   destruct (N.max_spec (N.log2 a) (N.log2 b)) as [[_ Em]|[_ Em]]; rewrite Em in H; lia.
 Qed.
 
-Global Opaque hash_u64 handle_from_u64 handle_from_u32 handle_of_bytes.
+Lemma handle_add_lt a b : a < two32 -> b < two32 -> handle_add a b < two32.
+Proof. intros Ha Hb. unfold handle_add. apply non_zero_lt, lxor_lt32; assumption. Qed.
+(* 3f22e7c: handles are never 0 - BitsProofs.handle_of_bytes_neq, hash_u64_neq, handle_add_neq,
+   handle_from_u64_neq, handle_from_u32_neq (exported below) *)
+
+Global Opaque hash_u64 handle_from_u64 handle_from_u32 handle_of_bytes handle_add.
 
 Lemma u32_to_i32_range n : (- 2147483648 <= u32_to_i32 n < 2147483648)%Z.
 Proof.
@@ -136,8 +144,7 @@ Lemma frame2_validate n : frame2 (validate_var_name n).
 Proof. unfold validate_var_name. destruct (is_empty n); [apply frame2_error | apply frame2_ret]. Qed.
 Lemma frame2_handle_from_bytes bs : frame2 (handle_from_bytes_m bs).
 Proof.
-  intros s. unfold handle_from_bytes_m.
-  destruct ((handle_of_bytes bs =? 0) && cs_debug s); cbn; [exact I | same2_tac].
+  intros s. unfold handle_from_bytes_m. same2_tac.
 Qed.
 Lemma frame2_label_insert h : frame2 (label_insert_here h).
 Proof.
@@ -156,14 +163,13 @@ Lemma sp2_get_pc_i32 : sp2 get_pc_i32 (fun z => (- 2147483648 <= z < 2147483648)
 Proof. intros s HI. cbn. split; auto. apply u32_to_i32_range. Qed.
 Lemma sp2_handle_from_bytes bs : sp2 (handle_from_bytes_m bs) fits32.
 Proof.
-  intros s HI. unfold handle_from_bytes_m.
-  destruct ((handle_of_bytes bs =? 0) && cs_debug s); cbn; auto. split; auto. apply handle_of_bytes_lt.
+  intros s HI. unfold handle_from_bytes_m. split; auto. apply handle_of_bytes_lt.
 Qed.
 Lemma sp2_index_handle : sp2 index_handle fits32.
 Proof.
   unfold index_handle. eapply sp2_bind; [apply sp2_get | intros s HIs].
   eapply sp2_bind; [apply sp2_handle_from_bytes | intros sub Hs].
-  apply sp2_ret. unfold fits32 in *. apply lxor_lt32; [apply (i2_fh _ HIs) | exact Hs].
+  apply sp2_ret. unfold fits32 in *. apply handle_add_lt; [apply (i2_fh _ HIs) | exact Hs].
 Qed.
 Lemma sp2_card_label : sp2 card_label (fun _ => True).
 Proof.
@@ -227,12 +233,25 @@ Lemma native_fn_ptr_ok x : x < two32 -> instr_ok (INativeFunctionPointer x).
 Proof. intros. ok_args. Qed.
 
 (* ---- scopes ---- *)
-Lemma pop_locals_ok rls d : Forall instr_ok (snd (pop_locals rls d)).
+(* d723a2c: the operand of a CloseUpvalue emitted by scope_end is the number of locals left after the
+   pop: strictly below the number of locals before it, hence <= 254 for an ArrayVec<Local, 255> *)
+Definition close_small (n : nat) (i : instr) : Prop :=
+  match i with ICloseUpvalue x => x < N.of_nat n | _ => True end.
+Lemma pop_locals_close_small rls d : Forall (close_small (length rls)) (snd (pop_locals rls d)).
 Proof.
   induction rls as [|l r IH]; cbn [pop_locals]; [constructor|].
   destruct (d <? l_depth l)%Z; [|constructor].
+  destruct (pop_locals r d) as [r' is]. cbn [snd length] in *. constructor.
+  - destruct (l_captured l); cbn; [lia | exact I].
+  - eapply Forall_impl; [|exact IH]. intros i. destruct i; cbn; auto. lia.
+Qed.
+Lemma pop_locals_ok rls d : (length rls <= 255)%nat -> Forall instr_ok (snd (pop_locals rls d)).
+Proof.
+  induction rls as [|l r IH]; cbn [pop_locals length]; intros Hlen; [constructor|].
+  destruct (d <? l_depth l)%Z; [|constructor].
+  assert (Hr : (length r <= 255)%nat) by lia. specialize (IH Hr).
   destruct (pop_locals r d) as [r' is]. cbn [snd] in *. constructor; auto.
-  destruct (l_captured l); ok_args.
+  destruct (l_captured l); ok_args. apply fits4. unfold two32. lia.
 Qed.
 Lemma pop_locals_length rls d : (length (fst (pop_locals rls d)) <= length rls)%nat.
 Proof.
@@ -254,7 +273,8 @@ Proof.
     destruct H5 as [|ls rest Hls Hrest]; cbn; constructor; auto.
     rewrite rev_length. subst rlis. cbn [hd].
     pose proof (pop_locals_length (rev ls) (hd 0%Z ds)). rewrite rev_length in H. lia. }
-  apply (sp2_push_raws (snd rlis) (pop_locals_ok _ _) s1 HI1).
+  refine (sp2_push_raws (snd rlis) (pop_locals_ok _ _ _) s1 HI1).
+  rewrite rev_length. destruct HI as [_ _ _ _ H5 _ _]. destruct H5; cbn; lia.
 Qed.
 
 Lemma sp2_compile_begin : sp2 compile_begin (fun _ => True).
@@ -330,7 +350,7 @@ Proof.
   destruct below as [|parent rest]; [injection H as <- <- <-; cbn; auto|].
   destruct ups as [|ucur ubelow]; [injection H as <- <- <-; cbn; auto|].
   inversion Hl as [|? ? Hcur Hbelow]; subst. inversion Hu as [|? ? Hucur Hubelow]; subst.
-  destruct (find_index _ parent 0) as [i|] eqn:Ef.
+  destruct (rfind_index _ parent 0 None) as [i|] eqn:Ef.
   - destruct (add_upvalue ucur (N.of_nat i mod 256) true) as [[k ucur']|] eqn:Ea; [|discriminate].
     injection H as <- <- <-.
     destruct (add_upvalue_ok _ _ _ _ _ Hucur ltac:(apply N.mod_lt; discriminate) Ea) as [Hok Hk].
@@ -623,7 +643,7 @@ Proof.
     eapply sp2_bind; [step2 | intros _ _].
     eapply sp2_bind.
     { apply sp2_push_instr. cbn [instr_ok instr_op instr_args op_widths].
-      constructor; [apply fits4, lxor_lt32; [exact Hh | apply handle_from_u64_lt]|].
+      constructor; [apply fits4, handle_add_lt; [exact Hh | apply handle_from_u64_lt]|].
       constructor; [apply fits4, N.mod_lt; discriminate | constructor]. }
     intros _ _. eapply sp2_bind; [apply sp2_get | intros s HIs].
     eapply sp2_bind; [|intros _ _; step2].
